@@ -139,6 +139,23 @@ def library_pool(with_doit: bool = True) -> list[dict]:  # noqa: PLR0914, PLR091
     add("deprecated.UnevaluatedExpression:named", legacy(x, ps.BreakupMomentumSquared(s, m1, m2), 2, name="lg"))
 
     add("ArrayElement", ae.ArrayElement(p0, (0, 1)))
+    shaped = ae.ArraySymbol("P", shape=(10, 4))
+    add("ArraySlice(step)", ae.ArraySlice(p0, (slice(None, None, 2), 0)))
+    add("ArraySlice(step,range)", ae.ArraySlice(p12, (slice(1, 9, 3), slice(None))))
+    add("ArraySlice(known shape)", ae.ArraySlice(shaped, (slice(None), slice(1, 4))))
+    add("ArraySlice(known shape,step)", ae.ArraySlice(shaped, (slice(0, 10, 2), 3)))
+    add("ArrayElement(known shape)", ae.ArrayElement(shaped, (2, 1)))
+    add("ArrayAxisSum(known shape)", ae.ArrayAxisSum(shaped, axis=0))
+    add("ArraySlice(nested)", sp.sqrt(ae.ArrayAxisSum(ae.ArraySlice(p12, (slice(None), slice(1, 4))) ** 2, axis=1)))
+    # twins: identical up to one non-SymPy attribute, nested below Add/Mul/Pow (SymPy's construction cache)
+    width_plain = EnergyDependentWidth(s, m0, w0, m1, m2, 2, d)
+    width_named = EnergyDependentWidth(s, m0, w0, m1, m2, 2, d, name=R"\Gamma_X")
+    width_swave = EnergyDependentWidth(s, m0, w0, m1, m2, 2, d, phsp_factor=ps.PhaseSpaceFactorSWave)
+    for label, width in (("plain", width_plain), ("named", width_named), ("swave", width_swave)):
+        add(f"twin:bw:{label}", m0 * w0 / (m0**2 - s - sp.I * m0 * width))
+    for label, rho in (("plain", ps.PhaseSpaceFactor(s, m1, m2)), ("named", ps.PhaseSpaceFactor(s, m1, m2, name="R")),
+                       ("abs", ps.PhaseSpaceFactorAbs(s, m1, m2))):
+        add(f"twin:rho:{label}", 1 + 2 * rho**2)
     out = []
     for name, expr in pool:
         out.append({"name": name, "expr": expr, "unfolded": False, "cls": type(expr).__name__})
@@ -153,10 +170,12 @@ def library_pool(with_doit: bool = True) -> list[dict]:  # noqa: PLR0914, PLR091
     return out
 
 
-def pool_entry(k: int) -> dict:
+def pool_entry(k) -> dict:
     """Entry ``k`` of the doubled pool: k < N folded, k >= N the unfolded form of entry k-N."""
     pool = library_pool(with_doit=False)
     n = len(pool)
+    if isinstance(k, str):
+        return next(e for e in pool if e["name"] == k)
     k %= 2 * n
     if k < n:
         return pool[k]
